@@ -1,1 +1,467 @@
-/-! # C02 — property theorems (not built yet) -/
+import RsMatterVerif.Model.Pase
+/-!
+# C02 — PASE admits only a peer that knows the passcode, only while a window is open
+
+Theorems over `Model/Pase` (symbolic SPAKE2+: the expected confirmation value is the free term
+`Conf pw ctx pA pB`).
+-/
+namespace C02
+open Pase
+
+/-- close goals of the form `(nested if/match …).field = …` by splitting every branch -/
+macro "splits" : tactic => `(tactic| repeat (first | rfl | split))
+
+@[simp] theorem checkWindowTimeout_sessions (s : St) : (checkWindowTimeout s).sessions = s.sessions := by
+  unfold checkWindowTimeout; splits
+@[simp] theorem recordFailure_sessions (s : St) : (recordFailure s).sessions = s.sessions := by
+  unfold recordFailure; simp only; splits
+@[simp] theorem removeTask_sessions (s : St) (x : Nat) : (removeTask s x).sessions = s.sessions := rfl
+@[simp] theorem setTask_sessions (s : St) (t : Task) : (setTask s t).sessions = s.sessions := rfl
+@[simp] theorem failTask_sessions (s : St) (x : Nat) : (failTask s x).sessions = s.sessions := by
+  simp [failTask]
+@[simp] theorem updateSessionTimeout_sessions (s : St) (x : Nat) (n : Bool) :
+    (updateSessionTimeout s x n).1.sessions = s.sessions := by
+  unfold updateSessionTimeout
+  simp only
+  splits
+
+@[simp] theorem checkWindowTimeout_tasks (s : St) : (checkWindowTimeout s).tasks = s.tasks := by
+  unfold checkWindowTimeout; splits
+@[simp] theorem recordFailure_tasks (s : St) : (recordFailure s).tasks = s.tasks := by
+  unfold recordFailure; simp only; splits
+@[simp] theorem updateSessionTimeout_tasks (s : St) (x : Nat) (n : Bool) :
+    (updateSessionTimeout s x n).1.tasks = s.tasks := by
+  unfold updateSessionTimeout; simp only; splits
+theorem mem_removeTask {s : St} {x : Nat} {t : Task} (h : t ∈ (removeTask s x).tasks) : t ∈ s.tasks := by
+  simp only [removeTask, List.mem_filter] at h; exact h.1
+theorem mem_failTask {s : St} {x : Nat} {t : Task} (h : t ∈ (failTask s x).tasks) : t ∈ s.tasks := by
+  simp only [failTask, recordFailure_tasks] at h; exact mem_removeTask h
+theorem mem_setTask {s : St} {n t : Task} (h : t ∈ (setTask s n).tasks) : t = n ∨ t ∈ s.tasks := by
+  simp only [setTask, List.mem_cons, List.mem_filter] at h
+  rcases h with h | h
+  · exact .inl h
+  · exact .inr h.1
+
+@[simp] theorem updateSessionTimeout_window (s : St) (x : Nat) (n : Bool) :
+    (updateSessionTimeout s x n).1.window = s.window := by
+  unfold updateSessionTimeout; simp only; splits
+
+@[simp] theorem checkWindowTimeout_now (s : St) : (checkWindowTimeout s).now = s.now := by
+  unfold checkWindowTimeout; splits
+@[simp] theorem updateSessionTimeout_now (s : St) (x : Nat) (n : Bool) :
+    (updateSessionTimeout s x n).1.now = s.now := by
+  unfold updateSessionTimeout; simp only; splits
+
+theorem checkWindowTimeout_open {s : St} {w : Window} (h : (checkWindowTimeout s).window = some w) :
+    s.window = some w ∧ s.now ≤ w.expiry := by
+  unfold checkWindowTimeout at h
+  split at h
+  · rename_i w' hw
+    split at h
+    · simp at h
+    · rw [hw] at h; injection h with h; subst h; exact ⟨hw, by omega⟩
+  · rename_i hw; rw [hw] at h; cases h
+
+@[simp] theorem removeTask_window (s : St) (x : Nat) : (removeTask s x).window = s.window := rfl
+@[simp] theorem setTask_window (s : St) (t : Task) : (setTask s t).window = s.window := rfl
+
+/-- the failure counter of an open window stays below the revocation threshold -/
+def WinInv (o : Option Window) : Prop := ∀ w, o = some w → w.failures < maxFailures
+
+theorem winInv_none : WinInv none := fun _ h => by cases h
+
+theorem winInv_check {s : St} (h : WinInv s.window) : WinInv (checkWindowTimeout s).window := by
+  unfold checkWindowTimeout
+  split
+  · split
+    · exact winInv_none
+    · exact h
+  · exact h
+
+theorem recordFailure_window (s : St) :
+    (recordFailure s).window =
+      match s.window with
+      | some w => if w.failures + 1 ≥ maxFailures then none else some { w with failures := w.failures + 1 }
+      | none => none := by
+  unfold recordFailure
+  simp only
+  split
+  · rename_i w hw
+    split
+    · simp_all
+    · simp_all
+  · rename_i hw; simp_all
+
+theorem winInv_record {s : St} : WinInv (recordFailure s).window := by
+  rw [recordFailure_window]
+  split
+  · split
+    · exact winInv_none
+    · intro w hw; injection hw with hw; subst hw; simp only; omega
+  · exact winInv_none
+
+theorem winInv_fail {s : St} {x : Nat} : WinInv (failTask s x).window := winInv_record
+
+/-- the only way a session comes into existence: a Pake3 on a live handshake that holds the
+in-progress marker, carrying exactly the confirmation value that handshake expects, while the
+window whose verifier answered its Pake1 is still present and unexpired -/
+theorem session_implies_proof (s : St) (op : Op) :
+    (step s op).1.sessions = s.sessions ∨
+    ∃ x exp wid t w, op = .pake3 x (.mac exp) ∧ findTask s x = some t ∧ t.stage = .waitPake3 exp wid ∧
+      (updateSessionTimeout s x false).2 = none ∧
+      s.window = some w ∧ w.id = wid ∧ s.now ≤ w.expiry ∧
+      (step s op).1.sessions = s.sessions ++
+        [{ exch := x, conf := exp, windowOpenAtCreation := true, sameWindowAtCreation := true }] := by
+  cases op with
+  | openWin pw secs => left; simp only [step]; splits
+  | revoke => left; rfl
+  | tick ms => left; rfl
+  | poll => left; simp [step]
+  | pbkdf x r => left; simp only [step]; repeat' (first | (simp; done) | split)
+  | pake1 x p => left; simp only [step]; repeat' (first | (simp; done) | split)
+  | pake3 x c =>
+    simp only [step]
+    split
+    · left; rfl
+    · rename_i t ht
+      split
+      · left; simp
+      · rename_i hnone
+        split
+        · left; simp
+        · rename_i exp wid hstage
+          by_cases hm : c = .malformed
+          · left; simp [hm]
+          · simp only [hm, if_false]
+            cases hw : (checkWindowTimeout (updateSessionTimeout s x false).fst).window with
+            | none => left; simp
+            | some w =>
+              simp only
+              by_cases hid : w.id = wid
+              · by_cases hc : c = .mac exp
+                · right
+                  obtain ⟨hw1, hw2⟩ := checkWindowTimeout_open hw
+                  simp only [updateSessionTimeout_window, updateSessionTimeout_now] at hw1 hw2
+                  have hopen : windowOpenNow (checkWindowTimeout (updateSessionTimeout s x false).fst) = true := by
+                    simp [windowOpenNow, hw, hw2]
+                  refine ⟨x, exp, wid, t, w, by rw [hc], ht, hstage, hnone, hw1, hid, hw2, ?_⟩
+                  simp [hopen, hid, hc]
+                · left; simp [hid, hc]
+              · left; simp [hid]
+  | other x => left; simp only [step]; repeat' (first | (simp; done) | split)
+  | dead x => left; simp only [step]; repeat' (first | (simp; done) | split)
+
+/-- **Full statement, first sentence of the property**: a session that a step adds was created while
+a commissioning window was present and unexpired, and that window is the one the proof is for. -/
+theorem session_only_in_open_window (s : St) (op : Op) (sess : Sess)
+    (hnew : sess ∈ (step s op).1.sessions) (hold : sess ∉ s.sessions) :
+    sess.windowOpenAtCreation = true ∧ sess.sameWindowAtCreation = true ∧
+      ∃ w, s.window = some w ∧ s.now ≤ w.expiry := by
+  rcases session_implies_proof s op with h | ⟨x, exp, wid, t, w, _, _, _, _, hw, _, hexp, h⟩
+  · rw [h] at hnew; exact absurd hnew hold
+  · rw [h] at hnew
+    rcases List.mem_append.mp hnew with h' | h'
+    · exact absurd h' hold
+    · simp only [List.mem_singleton] at h'
+      subst h'
+      exact ⟨rfl, rfl, w, hw, hexp⟩
+
+/-- wrong passcode, another transcript, another share, or bytes that are no confirmation value at
+all: no session -/
+theorem wrong_proof_never (s : St) (x : Nat) (c : CA)
+    (h : ∀ t exp wid, findTask s x = some t → t.stage = .waitPake3 exp wid → c ≠ .mac exp) :
+    (step s (.pake3 x c)).1.sessions = s.sessions := by
+  rcases session_implies_proof s (.pake3 x c) with h1 | ⟨x', exp, wid, t, w, hop, ht, hst, _⟩
+  · exact h1
+  · injection hop with hx hc
+    subst hx hc
+    exact absurd rfl (h t exp wid ht hst)
+
+theorem wrong_passcode_never (s : St) (x : Nat) (c : Conf)
+    (h : ∀ t exp wid, findTask s x = some t → t.stage = .waitPake3 exp wid → c.pw ≠ exp.pw) :
+    (step s (.pake3 x (.mac c))).1.sessions = s.sessions :=
+  wrong_proof_never s x _ (fun t exp wid ht hs hc => h t exp wid ht hs (by injection hc with hc; rw [hc]))
+
+/-- a confirmation value of another transcript (a replay from another handshake) is refused -/
+theorem replayed_never (s : St) (x : Nat) (c : Conf)
+    (h : ∀ t exp wid, findTask s x = some t → t.stage = .waitPake3 exp wid → c.ctx ≠ exp.ctx ∨ c.pB ≠ exp.pB) :
+    (step s (.pake3 x (.mac c))).1.sessions = s.sessions :=
+  wrong_proof_never s x _ (fun t exp wid ht hs hc => by
+    injection hc with hc
+    rcases h t exp wid ht hs with h' | h' <;> exact h' (by rw [hc]))
+
+theorem mutated_never (s : St) (x n : Nat) : (step s (.pake3 x (.junk n))).1.sessions = s.sessions :=
+  wrong_proof_never s x _ (fun _ _ _ _ _ hc => by cases hc)
+
+/-- only Pake3 creates sessions; in particular a failure (any other outcome) leaves none behind -/
+theorem failure_leaves_no_session (s : St) (op : Op) (h : (step s op).2 ≠ .statusSuccess) :
+    (step s op).1.sessions = s.sessions := by
+  rcases session_implies_proof s op with h1 | ⟨x, exp, wid, t, w, hop, ht, hst, hnone, hw, hid, hexp, _⟩
+  · exact h1
+  · exfalso
+    apply h
+    subst hop
+    have hcw : (checkWindowTimeout (updateSessionTimeout s x false).fst).window = some w := by
+      unfold checkWindowTimeout
+      simp only [updateSessionTimeout_window, updateSessionTimeout_now, hw]
+      split
+      · omega
+      · simp [hw]
+    simp only [step, ht, hnone, hst, hcw, hid]
+    simp
+/-- **A handshake gets as far as expecting Pake3 only through a Pake1 carrying a valid prover share,
+received while a window is present and unexpired; the value it will then accept is bound to that
+window's passcode class, the handshake's own transcript and both shares.** -/
+theorem waitPake3_only_by_valid_pake1 (s : St) (op : Op) (t : Task) (exp : Conf) (wid : Nat)
+    (ht : t ∈ (step s op).1.tasks) (hst : t.stage = .waitPake3 exp wid) :
+    t ∈ s.tasks ∨
+    ∃ a ctx w t0, op = .pake1 t.exch (.valid a) ∧ findTask s t.exch = some t0 ∧ t0.stage = .waitPake1 ctx ∧
+      s.window = some w ∧ s.now ≤ w.expiry ∧ exp.pw = w.pw ∧ exp.ctx = ctx ∧ exp.pA = a ∧ wid = w.id := by
+  cases op with
+  | openWin pw secs =>
+    left; simp only [step] at ht
+    split at ht
+    · exact ht
+    · split at ht <;> exact ht
+  | revoke => left; exact ht
+  | tick ms => left; exact ht
+  | poll => left; simpa [step] using ht
+  | pbkdf x r =>
+    left
+    simp only [step] at ht
+    split at ht
+    · split at ht
+      · simpa using mem_removeTask ht
+      · simpa using mem_failTask ht
+    · split at ht
+      · simpa using ht
+      · split at ht
+        · simpa using ht
+        · split at ht
+          · rcases mem_setTask ht with h | h
+            · rw [h] at hst; cases hst
+            · simpa using h
+          · simpa using ht
+  | pake1 x p =>
+    simp only [step] at ht
+    split at ht
+    · left; exact ht
+    · rename_i t0 ht0
+      split at ht
+      · left; simpa using mem_removeTask ht
+      · split at ht
+        · left; simpa using mem_failTask ht
+        · rename_i ctx hctx
+          split at ht
+          · left; simpa using mem_failTask ht
+          · split at ht
+            · left; simpa using mem_removeTask ht
+            · rename_i w hw
+              split at ht
+              · rename_i a _
+                rcases mem_setTask ht with h | h
+                · right
+                  subst h
+                  simp only at hst
+                  injection hst with hst hwid
+                  obtain ⟨hw1, hw2⟩ := checkWindowTimeout_open hw
+                  refine ⟨a, ctx, w, t0, rfl, ht0, hctx, ?_, ?_, ?_, ?_, ?_, hwid.symm⟩
+                  · simpa using hw1
+                  · simpa using hw2
+                  · rw [← hst]
+                  · rw [← hst]
+                  · rw [← hst]
+                · left; simpa using h
+              · left; simpa using mem_failTask ht
+  | pake3 x c =>
+    left
+    simp only [step] at ht
+    repeat' split at ht
+    all_goals first
+      | exact ht
+      | (simpa using mem_removeTask ht)
+      | (simpa using mem_failTask ht)
+  | other x =>
+    left
+    simp only [step] at ht
+    split at ht
+    · exact ht
+    · split at ht
+      · simpa using mem_removeTask ht
+      · simpa using mem_failTask ht
+  | dead x =>
+    left
+    simp only [step] at ht
+    split at ht
+    · exact ht
+    · simpa using mem_failTask ht
+theorem step_winInv (s : St) (op : Op) (h : WinInv s.window) : WinInv (step s op).1.window := by
+  have h0 : (0 : Nat) < maxFailures := by decide
+  cases op with
+  | openWin pw secs =>
+    simp only [step]
+    split
+    · exact h
+    · split
+      · exact h
+      · intro w hw; simp only at hw; injection hw with hw; subst hw; exact h0
+  | revoke => exact winInv_none
+  | tick ms => exact h
+  | poll => exact winInv_check h
+  | pbkdf x r =>
+    simp only [step]
+    repeat' split
+    all_goals first
+      | exact winInv_fail
+      | exact winInv_record
+      | (simp only [removeTask_window, setTask_window, updateSessionTimeout_window]; exact h)
+      | (simp only [removeTask_window, setTask_window]; apply winInv_check; simp only [updateSessionTimeout_window]; exact h)
+  | pake1 x p =>
+    simp only [step]
+    repeat' split
+    all_goals first
+      | exact h
+      | exact winInv_fail
+      | exact winInv_record
+      | (simp only [removeTask_window, setTask_window, updateSessionTimeout_window]; exact h)
+      | (simp only [removeTask_window, setTask_window]; apply winInv_check; simp only [updateSessionTimeout_window]; exact h)
+  | pake3 x c =>
+    simp only [step]
+    repeat' split
+    all_goals first
+      | exact h
+      | exact winInv_fail
+      | exact winInv_record
+      | (simp only [removeTask_window, setTask_window, updateSessionTimeout_window]; exact h)
+      | (simp only [removeTask_window, setTask_window]; apply winInv_check; simp only [updateSessionTimeout_window]; exact h)
+  | other x =>
+    simp only [step]
+    repeat' split
+    all_goals first
+      | exact h
+      | exact winInv_fail
+      | exact winInv_record
+      | (simp only [removeTask_window, setTask_window, updateSessionTimeout_window]; exact h)
+      | (simp only [removeTask_window, setTask_window]; apply winInv_check; simp only [updateSessionTimeout_window]; exact h)
+  | dead x =>
+    simp only [step]
+    repeat' split
+    all_goals first
+      | exact h
+      | exact winInv_fail
+      | exact winInv_record
+      | (simp only [removeTask_window, setTask_window, updateSessionTimeout_window]; exact h)
+      | (simp only [removeTask_window, setTask_window]; apply winInv_check; simp only [updateSessionTimeout_window]; exact h)
+
+/-! ## whole histories -/
+
+theorem run_winInv (s : St) (ops : List Op) (h : WinInv s.window) : WinInv (run s ops).window := by
+  induction ops generalizing s with
+  | nil => exact h
+  | cons o os ih => exact ih _ (step_winInv s o h)
+
+/-- **Revoked after `maxPakeFailures`**: in every reachable state an open window has counted fewer
+failures than the threshold — the step that would reach it closes the window instead. -/
+theorem revoked_after_max (ops : List Op) (w : Window) (h : (run {} ops).window = some w) :
+    w.failures < maxFailures :=
+  run_winInv {} ops winInv_none w h
+
+/-- **Every failed proof is counted**: a Pake3 whose confirmation value is not the expected one (on
+a live handshake that holds the in-progress marker) increments the window's counter, or revokes the
+window when that reaches the threshold. -/
+theorem failed_proof_counted (s : St) (x : Nat) (c : CA) (t : Task) (exp : Conf) (wid : Nat) (w : Window)
+    (ht : findTask s x = some t) (hst : t.stage = .waitPake3 exp wid)
+    (hm : (updateSessionTimeout s x false).2 = none) (hc : c ≠ .mac exp)
+    (hw : s.window = some w) (hid : w.id = wid) (hexp : s.now ≤ w.expiry) :
+    (step s (.pake3 x c)).1.window =
+      if w.failures + 1 ≥ maxFailures then none else some { w with failures := w.failures + 1 } := by
+  subst hid
+  have hcw : checkWindowTimeout (updateSessionTimeout s x false).fst = (updateSessionTimeout s x false).fst := by
+    unfold checkWindowTimeout
+    simp only [updateSessionTimeout_window, updateSessionTimeout_now, hw]
+    split
+    · omega
+    · rfl
+  simp only [step, ht, hm, hst, hcw, updateSessionTimeout_window, hw]
+  split
+  · simp only [failTask, recordFailure_window, removeTask_window, updateSessionTimeout_window, hw]
+  · simp only [hc, if_false, failTask, recordFailure_window, removeTask_window,
+      updateSessionTimeout_window, hw, beq_self_eq_true, Bool.not_true, Bool.false_eq_true]
+
+/-- **Advertised ⇔ window present** (`Matter::mdns_services` publishes the commissionable record
+exactly when `Pase::comm_window()` is `Some`), and one poll after the expiry the record is gone. -/
+theorem advertised_iff_open (s : St) : advertised s = true ↔ s.window.isSome = true := Iff.rfl
+
+theorem poll_closes_expired (s : St) (w : Window) (h : (step s .poll).1.window = some w) :
+    (step s .poll).1.now ≤ w.expiry := by
+  simp only [step] at h ⊢
+  obtain ⟨_, h2⟩ := checkWindowTimeout_open h
+  simpa using h2
+
+/-- what the property demands of every PASE session that exists -/
+def SessOK (x : Sess) : Prop := x.windowOpenAtCreation = true ∧ x.sameWindowAtCreation = true
+
+theorem step_sessOK (s : St) (op : Op) (h : ∀ x ∈ s.sessions, SessOK x) :
+    ∀ x ∈ (step s op).1.sessions, SessOK x := by
+  intro x hx
+  by_cases hold : x ∈ s.sessions
+  · exact h x hold
+  · obtain ⟨h1, h2, _⟩ := session_only_in_open_window s op x hx hold
+    exact ⟨h1, h2⟩
+
+/-- **For every history**: each PASE session that exists was created while the commissioning
+window of its own proof was open and unexpired. -/
+theorem every_session_in_open_window (ops : List Op) :
+    ∀ x ∈ (run {} ops).sessions, SessOK x := by
+  suffices h : ∀ (s : St), (∀ x ∈ s.sessions, SessOK x) → ∀ x ∈ (run s ops).sessions, SessOK x from
+    h {} (fun _ hx => by cases hx)
+  induction ops with
+  | nil => intro s h; exact h
+  | cons o os ih => intro s h; exact ih _ (step_sessOK s o h)
+
+/-- sessions are never removed or altered by the responder: the list only grows -/
+theorem sessions_prefix (s : St) (op : Op) : ∃ l, (step s op).1.sessions = s.sessions ++ l := by
+  rcases session_implies_proof s op with h | ⟨_, _, _, _, _, _, _, _, _, _, _, _, h⟩
+  · exact ⟨[], by simp [h]⟩
+  · exact ⟨_, h⟩
+/-- the threshold of the code is the property's *twenty* (breaks if the constant is changed) -/
+theorem threshold_is_twenty : maxFailures = 20 := by decide
+
+/-! ## Non-vacuity and the finding's history on the (fixed) model -/
+namespace Ex
+/-- ids are drawn from `fresh`: window id 0, transcript 1, responder share 2 -/
+def conf : Conf := { pw := 7, ctx := 1, pA := 5, pB := 2 }
+def honest : List Op := [.openWin 7 180, .pbkdf 1 .good, .pake1 1 (.valid 5), .pake3 1 (.mac conf)]
+
+/-- the honest run ends with one session, created in the open window of its own proof -/
+example : (run {} honest).sessions =
+    [{ exch := 1, conf := conf, windowOpenAtCreation := true, sameWindowAtCreation := true }] := by decide
+
+/-- hypotheses of `session_only_in_open_window` / `session_implies_proof` (right disjunct) are met by the
+last step of the honest run -/
+example : ∃ s sess, sess ∈ (step s (.pake3 1 (.mac conf))).1.sessions ∧ sess ∉ s.sessions :=
+  ⟨run {} (honest.take 3), { exch := 1, conf := conf, windowOpenAtCreation := true, sameWindowAtCreation := true },
+    by decide, by decide⟩
+
+/-- **the finding's history**: window revoked between Pake1 and Pake3 — no session, the message is dropped -/
+example : (run {} [.openWin 7 180, .pbkdf 1 .good, .pake1 1 (.valid 5), .revoke, .pake3 1 (.mac conf)]).sessions = [] := by
+  decide
+/-- … window expired between Pake1 and Pake3 (no poll in between) -/
+example : (run {} [.openWin 7 180, .tick 170000, .pbkdf 1 .good, .pake1 1 (.valid 5), .tick 20000,
+    .pake3 1 (.mac conf)]).sessions = [] := by decide
+/-- … window replaced by another one between Pake1 and Pake3 -/
+example : (run {} [.openWin 7 180, .pbkdf 1 .good, .pake1 1 (.valid 5), .revoke, .openWin 8 180,
+    .pake3 1 (.mac conf)]).sessions = [] := by decide
+
+/-- `wrong_passcode_never`: its hypothesis is satisfiable (the handshake expects passcode class 7) -/
+example : (step (run {} (honest.take 3)) (.pake3 1 (.mac { conf with pw := 8 }))).1.sessions = [] := by decide
+/-- `failed_proof_counted`: hypotheses satisfiable, and the counter moves 0 → 1 -/
+example : ((step (run {} (honest.take 3)) (.pake3 1 (.junk 0))).1.window.map (·.failures)) = some 1 := by decide
+/-- `waitPake3_only_by_valid_pake1`: an invalid share ends the handshake (and is counted) -/
+example : (run {} [.openWin 7 180, .pbkdf 1 .good, .pake1 1 .identity]).tasks = [] := by decide
+example : ((run {} [.openWin 7 180, .pbkdf 1 .good, .pake1 1 .offCurve]).window.map (·.failures)) = some 1 := by decide
+/-- a second initiator while one is in progress is told `Busy` and is not counted -/
+example : (step (run {} (honest.take 2)) (.pbkdf 2 .good)).2 = .statusBusy := by decide
+end Ex
+
+end C02
